@@ -189,6 +189,14 @@ def run(tier, rep):
     for key, lst in sorted(by_key.items(), key=lambda kv: json.dumps(kv[0])):
         pool = [p for p in lst if p["opts"]["p"] == "0.3" or rng.random() < 0.25] or lst
         chosen.append(rng.choice(pool))
+    # a weight of 0 on one side: the other side (and gamma-cat / gamma-k, which use the categorical component whatever beta
+    # is) must still follow the -d choice
+    for d_, key_ in (("numerical", "b"), ("levenshtein", "b"), ("numerical", "a"), ("levenshtein", "a")):
+        pool = [p for p in cases if p["opts"]["d"] == d_ and p["opts"][key_] == "0" and p["opts"]["c"] and p["opts"]["k"]
+                and p["opts"]["p"] == "0.3" and p["opts"]["files"] == 1 and p["opts"]["a" if key_ == "b" else "b"] != "0"]
+        if not pool:
+            raise MachineryError("Cli.tla emitted no record with a zero weight")
+        chosen.append(rng.choice(pool))
     extra = 0 if quick else 500
     chosen += [rng.choice(cases) for _ in range(extra)]
     if quick:
